@@ -36,6 +36,9 @@ class VLoop(asyncio.BaseEventLoop):
 
     # -- manual driving
     def install(self):
+        if getattr(self, "_mc_installed", False):
+            return
+        self._mc_installed = True
         events._set_running_loop(self)
         self._old_hooks = sys.get_asyncgen_hooks()
         sys.set_asyncgen_hooks(firstiter=self._ag_first, finalizer=self._ag_final)
